@@ -10,6 +10,10 @@ Definition mk_pkg (path dir name : bytes) (files : list bytes) (tys : list tyinf
 (* directories are relative to the module root, so the root is "" *)
 Definition mk_world (pkgs : list pkginfo) (direct : list bytes) : world :=
   {| w_modroot := []; w_pkgs := pkgs; w_direct := direct |}.
+(* a run whose entrypoints name packages of ANOTHER member of a go.work workspace: directories stay relative to the
+   directory the run was started in, the module of the run has its root in [root] (e.g. "lib", "../tools") *)
+Definition mk_world_at (root : bytes) (pkgs : list pkginfo) (direct : list bytes) : world :=
+  {| w_modroot := root; w_pkgs := pkgs; w_direct := direct |}.
 
 (* ---------- scripted generators (harness/internal/pipe: state.call) ---------- *)
 
